@@ -368,7 +368,10 @@ def start_coverage(prefix):
         fn = code.co_filename
         if not fn.startswith(prefix):
             return mon.DISABLE
-        STATE.cover_calls[fn[plen:] + ":" + code.co_qualname] += 1
+        k = fn[plen:] + ":" + code.co_qualname
+        STATE.cover_calls[k] += 1
+        if STATE.cover_calls[k] >= 200:      # enough to show the function was exercised; stop paying for the event
+            return mon.DISABLE
 
     mon.register_callback(_TOOL, mon.events.PY_START, on_start)
     mon.set_events(_TOOL, mon.events.PY_START)
